@@ -185,6 +185,7 @@ def run(ctx):
     _r5_callables(ctx)
     _r6_dispatch(ctx)
     _r7_switch_histories(ctx)
+    _r8_jit_arguments(ctx)
 
 
 # ----------------------------------------------------------------------
@@ -641,6 +642,73 @@ BACKEND_CLASSES = {"numpy": ("src/pyhf/tensor/numpy_backend.py", "numpy_backend"
 # process-global modes a backend's _setup may switch, and whether tensors created with an EXPLICIT dtype depend on them
 # (jax silently truncates float64 requests while x64 is off; torch's default dtype only matters without a dtype)
 MODES_AFFECTING_EXPLICIT_DTYPE = {"jax_enable_x64"}
+
+
+def _r8_jit_arguments(ctx):
+    """optimize.common.shim composed with the jax wrap_objective by interpretation, the jitted entry points as recorders."""
+    from ..alg import Closure, Obj, Poly, PyFunc, RaisedInFragment, Undecided
+    from . import viewers
+    repo = ctx.repo
+    r8 = ctx.rule(
+        "C11.R8",
+        "JIT-ARGUMENTS (interpreted): the compiled jax objective is remembered per static arguments AND per type of its traced "
+        "arguments; parameters arrive from the optimiser as float64 numpy arrays under either precision, so the observed data "
+        "are what makes a compiled objective of another precision unusable after a precision switch: shim composed with the jax "
+        "wrap_objective hands the jitted function the caller's data converted to a tensor of the backend current at that time "
+        "(astensor in shim or in the wrapper), with and without gradients",
+        "HISTORY", floor=2,
+    )
+    OPT = "src/pyhf/optimize/"
+    errs = (Undecided, KeyError, TypeError, ValueError, IndexError, AttributeError)
+    if not repo.has_func(OPT + "opt_jax.py", "wrap_objective"):
+        ctx.unrecognised(r8, repo.module(OPT + "common.py"), "opt_jax.wrap_objective", "not found")
+        return
+    shim, mk, wrap = repo.func(OPT + "common.py", "shim"), repo.func(OPT + "common.py", "_make_stitch_pars"), repo.func(OPT + "opt_jax.py", "wrap_objective")
+    for f_ in (shim, wrap):
+        ctx.touch(f_)
+    for do_grad in (True, False):
+        site = f"{OPT}common.py::shim o {OPT}opt_jax.py::wrap_objective [do_grad={do_grad}]"
+        try:
+            seen = []
+
+            def jitted(a, k):
+                seen.append(a[1] if len(a) > 1 else k.get("data"))
+                return (Poly.atom("V"), Obj("GRAD")) if do_grad else Poly.atom("V")
+
+            def astensor(a, k):
+                x = a[0]
+                if isinstance(x, Obj) and x.name == "TENSOR_OF_THE_CURRENT_BACKEND":
+                    return x
+                if isinstance(x, Obj) and x.name == "caller's data":
+                    return Obj("TENSOR_OF_THE_CURRENT_BACKEND", {"of": x}, closed=True)
+                return list(x) if isinstance(x, (list, tuple)) else x
+
+            w = viewers.world(repo, {"astensor": astensor, "_jitted_objective_and_grad": jitted, "_jitted_objective": jitted, "debug": lambda a, k: None})
+            w.module_env["log"] = Obj("log")
+            w.add_func(mk).add_func(shim)
+            w.base["_get_tensor_shim"] = lambda a, k: PyFunc(lambda a2, k2: w.call_func(wrap, a2, k2), "wrap_objective")
+            data = Obj("caller's data", closed=True)
+            pdf_ = Obj("pdf", {"config": Obj("config", {"npars": Poly.const(3)})})
+            kw, _ = w.call_func(shim, [Obj("objective"), data, pdf_, [Poly.atom(f"i{j}") for j in range(3)], [Poly.atom(f"b{j}") for j in range(3)]], {"fixed_vals": [(Poly.const(1), Poly.atom("v1"))], "do_grad": do_grad, "do_stitch": False})
+            fn_ = kw.get("func")
+            pars = Obj("float64 array from the optimiser")
+            if isinstance(fn_, Closure):
+                (fn_.interp if getattr(fn_, "interp", None) is not None else w)._call_closure(fn_, [pars], {})
+            elif isinstance(fn_, PyFunc):
+                fn_.f([pars], {})
+            else:
+                raise Undecided("shim does not return a function under `func`")
+            if not seen:
+                raise Undecided("the jitted entry point was not reached")
+            d_ = seen[-1]
+            if isinstance(d_, Obj) and d_.name == "TENSOR_OF_THE_CURRENT_BACKEND":
+                ctx.holds(r8, site, "the jitted objective receives astensor(data)")
+            else:
+                ctx.violated(r8, shim, f"data argument of the jitted objective [do_grad={do_grad}]", "the compiled jax objective is called with the caller's data as given (e.g. a python list): its traced arguments then look the same under 64b and 32b, so after a precision switch a model fitted before keeps running the objective compiled -- tensorlib and constants baked in -- for the OLD precision, while a fresh model does not", expected="astensor(data) of the current backend", found=getattr(d_, "name", type(d_).__name__), node=shim.node)
+        except RaisedInFragment as e:
+            ctx.violated(r8, shim, f"shim o wrap_objective [do_grad={do_grad}]", f"raises {e.exc_name} on valid inputs", node=shim.node)
+        except errs as e:
+            ctx.unrecognised(r8, shim, f"shim o wrap_objective [do_grad={do_grad}]", f"not interpretable: {type(e).__name__}: {e}")
 
 
 def _r7_switch_histories(ctx):
